@@ -75,7 +75,7 @@ def chk_isprime(ctx, n, want, cls, key=None):
         # composites >= 2^64: the statement promises nothing; observed, not judged
         ctx.count("is_prime.composite_ge_2^64.unjudged.%s" % ("rejected" if not got else "accepted"))
         return
-    ctx.case(cls, key=key, nontrivial=key is not None)
+    ctx.case(cls, key=key, nontrivial=key is not None, sample=dict(fn="is_prime", n=n, result=got, reference=want) if ctx.want(cls) else None)
     if bool(got) != want or got not in (True, False):
         mech = "is_prime_accepts_composite" if got else "is_prime_rejects_prime"
         ctx.violation(mech, "is_prime(%d) = %r, reference says %r" % (n, got, want), dict(n=n, got=got, want=want), _r("is_prime", n))
@@ -88,7 +88,7 @@ def chk_factor(ctx, n, cls, key=None):
         ctx.case(cls, key=key)
         ctx.violation("factorization_raises", "factorization(%d) raised %s: %s" % (n, type(e).__name__, e), dict(n=n), _r("factorization", n))
         return
-    ctx.case(cls, key=key, nontrivial=key is not None)
+    ctx.case(cls, key=key, nontrivial=key is not None, sample=dict(fn="factorization", n=n, result=got) if ctx.want(cls) else None)
     ok = isinstance(got, list)
     if ok and n < 2:
         ok = got == []
@@ -115,7 +115,7 @@ def chk_next(ctx, n, want, cls, key=None):
         ctx.case(cls, key=key)
         ctx.violation("next_prime_raises", "next_prime(%d) raised %s" % (n, type(e).__name__), dict(n=n), _r("next_prime", n))
         return
-    ctx.case(cls, key=key, nontrivial=key is not None)
+    ctx.case(cls, key=key, nontrivial=key is not None, sample=dict(fn="next_prime", n=n, result=got, reference=want) if ctx.want(cls) else None)
     ctx.check(got == want, "next_prime_wrong", "next_prime(%d) = %r, smallest prime above is %d" % (n, got, want),
               dict(n=n, got=got, want=want), _r("next_prime", n))
 
